@@ -13,6 +13,7 @@ import RpylibModel.Proofs.Lemmas.C14RS
 import RpylibModel.Proofs.Lemmas.C14Frontier
 import RpylibModel.Proofs.Lemmas.C14Hyperbolic
 import RpylibModel.Proofs.Lemmas.C14History
+import RpylibModel.Proofs.Lemmas.C14Bound
 
 namespace Rpylib.Pairing
 
@@ -296,9 +297,8 @@ def smBoxAdm (projD : Nat → Nat → List Nat) (o : Nat) (ns : List Nat) (i : N
   inBox o ns (zdProject projD 1 ns.length i)
 
 /-- **each in-box non-origin state exactly once, then exhaustion** for any pairing that is a bijection ℕ ↔ ℕ^d,
-*under the hypothesis that the search bound exceeds every in-box index* (`hb`).  Monotone pairings (Szudzik, Cantor,
-Pepis–Kalmár: `monotone_frontier_bound`) satisfy `hb` with the bound the code computes; Rosenberg–Strong does not
-(`rs_frontier_bound_counterexample`). -/
+*under the hypothesis that the search bound exceeds every in-box index* (`hb`).  Since /repo commit 94bedf1 the bound the
+code computes (`smBoxBound`, from `max_inside_index`) satisfies `hb` for every pairing: `states_manager_box_all`. -/
 theorem states_manager_box {pairN : List Nat → Nat} {projD : Nat → Nat → List Nat} (o : Nat) (ns : List Nat)
     (h : NdBij pairN projD ns.length) (bound : Nat)
     (hb : ∀ v, inBox o ns v = true → v ≠ List.replicate ns.length 0 → zdPair pairN 1 v < bound) :
@@ -326,44 +326,89 @@ theorem states_manager_box {pairN : List Nat → Nat} {projD : Nat → Nat → L
     simp only [smBoxAdm, hp, hv]
 
 
-/-- the search bound as the code computes it: `max(frontier_states) + 1` -/
-def smBoxBound (pairN : List Nat → Nat) (o : Nat) (ns : List Nat) : Nat := (maxFrontier (zdPair pairN 1) o ns + 1).toNat
+/-- the PRE-94bedf1 search bound: `max(frontier_states) + 1` (the frontier list itself is unchanged by the fix and is still
+what `_sample_frontier_state_increment` draws from) -/
+def smBoxBoundFrontier (pairN : List Nat → Nat) (o : Nat) (ns : List Nat) : Nat := (maxFrontier (zdPair pairN 1) o ns + 1).toNat
 
-/-- Szudzik (the factory's pairing for d = 2; d ≥ 3 through the base-class fold), Cantor and Pepis–Kalmár are monotone
-in the last coordinate, hence the code's bound exceeds every in-box index (boxes of dimension ≥ 2, any axis sizes) -/
+/-- the search bound as the code computes it since 94bedf1: `max(max(frontier_states), max_inside_index) + 1` -/
+def smBoxBound (pairN : List Nat → Nat) (o : Nat) (ns : List Nat) : Nat := (maxEnum (zdPair pairN 1) o ns + 1).toNat
+
+/-- the code's bound exceeds the index of every state of the box: every pairing, every box of dimension ≥ 2, any axis sizes -/
+theorem code_bound_exceeds_box (pairN : List Nat → Nat) (o : Nat) (ns : List Nat) (hd : 2 ≤ ns.length) (v : List Int)
+    (hv : inBox o ns v = true) : zdPair pairN 1 v < (smBoxBound pairN o ns : Int) :=
+  lt_maxEnum_succ (zdPair pairN 1) o ns hd v hv
+
+/-- the code's bound is attained: it is never larger than needed by more than the frontier (no index beyond
+`max(frontier, inside, 0)` is searched) -/
+theorem code_bound_ge_frontier (pairN : List Nat → Nat) (o : Nat) (ns : List Nat) :
+    smBoxBoundFrontier pairN o ns ≤ smBoxBound pairN o ns := by
+  unfold smBoxBoundFrontier smBoxBound maxEnum
+  split <;> omega
+
+/-- **each in-box non-origin state exactly once, then exhaustion, with the bound the code computes**, for ANY pairing that
+is a bijection ℕ ↔ ℕ^d, on every box of dimension ≥ 2 (any origin index, any axis sizes) -/
+theorem states_manager_box_code_bound {pairN : List Nat → Nat} {projD : Nat → Nat → List Nat} (o : Nat) (ns : List Nat)
+    (hd : 2 ≤ ns.length) (h : NdBij pairN projD ns.length) :
+    (∀ v, inBox o ns v = true → v ≠ List.replicate ns.length 0 →
+        ∃ j : Nat, zdPair pairN 1 v = j ∧ zdProject projD 1 ns.length j = v ∧
+          ∀ n, j < n → (smRun (smBoxAdm projD o ns) (smBoxBound pairN o ns) n).2.count (some j) = 1) ∧
+    (∀ j n, (smRun (smBoxAdm projD o ns) (smBoxBound pairN o ns) n).2.count (some j) ≤ 1 ∧
+        (0 < (smRun (smBoxAdm projD o ns) (smBoxBound pairN o ns) n).2.count (some j) →
+          inBox o ns (zdProject projD 1 ns.length j) = true ∧
+          zdProject projD 1 ns.length j ≠ List.replicate ns.length 0)) ∧
+    (∀ n, smBoxBound pairN o ns ≤ n →
+        (smStep (smBoxAdm projD o ns) (smBoxBound pairN o ns) (-1) (smRun (smBoxAdm projD o ns) (smBoxBound pairN o ns) n).1 n).2 = none) ∧
+    (∀ n, (smStep (smBoxAdm projD o ns) (smBoxBound pairN o ns) (-1) (smRun (smBoxAdm projD o ns) (smBoxBound pairN o ns) n).1 n).2 = none →
+        ∀ v, inBox o ns v = true → v ≠ List.replicate ns.length 0 →
+          ∃ j : Nat, zdProject projD 1 ns.length j = v ∧
+            (smRun (smBoxAdm projD o ns) (smBoxBound pairN o ns) n).2.count (some j) = 1) :=
+  states_manager_box o ns h (smBoxBound pairN o ns) (fun v hv _ => code_bound_exceeds_box pairN o ns hd v hv)
+
+/-- instance: Cantor, Rosenberg–Strong (both forms; the factory's pairing for d ≥ 3), Szudzik (the factory's pairing for
+d = 2), Pepis–Kalmár — every kind, every dimension ≥ 2, the code's own bound -/
+theorem states_manager_box_all (k : Kind) (o : Nat) (ns : List Nat) (hd : 2 ≤ ns.length) :
+    (∀ v, inBox o ns v = true → v ≠ List.replicate ns.length 0 →
+        ∃ j : Nat, zdPair k.pairN 1 v = j ∧ zdProject k.projD 1 ns.length j = v ∧
+          ∀ n, j < n → (smRun (smBoxAdm k.projD o ns) (smBoxBound k.pairN o ns) n).2.count (some j) = 1) ∧
+    (∀ j n, (smRun (smBoxAdm k.projD o ns) (smBoxBound k.pairN o ns) n).2.count (some j) ≤ 1 ∧
+        (0 < (smRun (smBoxAdm k.projD o ns) (smBoxBound k.pairN o ns) n).2.count (some j) →
+          inBox o ns (zdProject k.projD 1 ns.length j) = true ∧
+          zdProject k.projD 1 ns.length j ≠ List.replicate ns.length 0)) ∧
+    (∀ n, smBoxBound k.pairN o ns ≤ n →
+        (smStep (smBoxAdm k.projD o ns) (smBoxBound k.pairN o ns) (-1) (smRun (smBoxAdm k.projD o ns) (smBoxBound k.pairN o ns) n).1 n).2 = none) ∧
+    (∀ n, (smStep (smBoxAdm k.projD o ns) (smBoxBound k.pairN o ns) (-1) (smRun (smBoxAdm k.projD o ns) (smBoxBound k.pairN o ns) n).1 n).2 = none →
+        ∀ v, inBox o ns v = true → v ≠ List.replicate ns.length 0 →
+          ∃ j : Nat, zdProject k.projD 1 ns.length j = v ∧
+            (smRun (smBoxAdm k.projD o ns) (smBoxBound k.pairN o ns) n).2.count (some j) = 1) :=
+  states_manager_box_code_bound o ns hd (pairN_bijection k ns.length (by omega))
+
+/-- non-vacuity and the repaired case: on the 3×3×3 box around the origin Rosenberg–Strong's state (-1, 0, 0) has index 25,
+beyond every frontier index (20); the code's bound is now 26 -/
+example : inBox 1 [3, 3, 3] [-1, 0, 0] = true ∧ zdPair rsPair 1 [-1, 0, 0] = 25 ∧ smBoxBound rsPair 1 [3, 3, 3] = 26 := by decide +kernel
+
+/-- Szudzik, Cantor and Pepis–Kalmár are monotone in the last coordinate, hence already the frontier indices exceed every
+in-box index (boxes of dimension ≥ 2, any axis sizes): for them the fix does not change the bound's adequacy.  (No longer
+needed as a hypothesis provider: `states_manager_box_all`.) -/
 theorem monotone_frontier_bound (k : Kind) (hk : k = .szudzik ∨ k = .cantor ∨ k = .pepis) (o : Nat)
     (first : List Nat) (nL : Nat) (hf : first ≠ []) (v : List Int) (hv : inBox o (first ++ [nL]) v = true) :
-    zdPair k.pairN 1 v < (smBoxBound k.pairN o (first ++ [nL]) : Int) := by
+    zdPair k.pairN 1 v < (smBoxBoundFrontier k.pairN o (first ++ [nL]) : Int) := by
   have h : zdPair k.pairN 1 v ≤ maxFrontier (zdPair k.pairN 1) o (first ++ [nL]) := by
     rcases hk with rfl | rfl | rfl
     · exact frontier_bound_of_mono szudzik szudzik_mono_right o first nL hf v hv
     · exact frontier_bound_of_mono cantor cantor_mono_right o first nL hf v hv
     · exact frontier_bound_of_mono pepis pepis_mono_right o first nL hf v hv
-  unfold smBoxBound
+  unfold smBoxBoundFrontier
   omega
 
-/-- **each in-box non-origin state exactly once, then exhaustion**, with the bound the code computes, for Szudzik,
-Cantor, Pepis–Kalmár on every box of dimension ≥ 2 -/
-theorem states_manager_box_monotone (k : Kind) (hk : k = .szudzik ∨ k = .cantor ∨ k = .pepis) (o : Nat)
-    (first : List Nat) (nL : Nat) (hf : first ≠ []) (v : List Int) (hv : inBox o (first ++ [nL]) v = true)
-    (hv0 : v ≠ List.replicate (first ++ [nL]).length 0) :
-    ∃ j : Nat, zdPair k.pairN 1 v = j ∧ zdProject k.projD 1 (first ++ [nL]).length j = v ∧
-      ∀ n, j < n →
-        (smRun (smBoxAdm k.projD o (first ++ [nL])) (smBoxBound k.pairN o (first ++ [nL])) n).2.count (some j) = 1 := by
-  have hb : ∀ w, inBox o (first ++ [nL]) w = true → w ≠ List.replicate (first ++ [nL]).length 0 →
-      zdPair k.pairN 1 w < (smBoxBound k.pairN o (first ++ [nL]) : Int) :=
-    fun w hw _ => monotone_frontier_bound k hk o first nL hf w hw
-  exact (states_manager_box o (first ++ [nL]) (pairN_bijection k _ (by simp)) _ hb).1 v hv hv0
-
-/-- FULL STATEMENT THAT DOES NOT HOLD for the code's bound with Rosenberg–Strong (the factory's pairing for d ≥ 3):
-  `∀ v, inBox o ns v → v ≠ 0 → zdPair rsPair 1 v < maxFrontier (zdPair rsPair 1) o ns + 1`.
-Negation witnesses: on the 3×3 grid the in-box state (-1, 0) has index 7 but the largest *frontier* index is 6; on
-the 3×3×3 grid (-1, 0, 0) has index 25, the largest frontier index is 20.  By `sm_never_beyond_bound` these states
-are never returned. -/
-theorem rs_frontier_bound_counterexample :
-    (inBox 1 [3, 3] [-1, 0] = true ∧ zdPair rsPair 1 [-1, 0] = 7 ∧ maxFrontier (zdPair rsPair 1) 1 [3, 3] = 6) ∧
+/-- WITNESS ABOUT THE PRE-FIX BOUND `max(frontier_states)` (what /repo computed before 94bedf1; recorded finding
+C14-rs-frontier-bound, now fixed): with Rosenberg–Strong it did NOT exceed every in-box index.  On the 3×3 grid the in-box
+state (-1, 0) has index 7 but the largest *frontier* index is 6; on the 3×3×3 grid (-1, 0, 0) has index 25, the largest
+frontier index is 20.  By `sm_never_beyond_bound` these states were never returned.  The bound computed now covers them. -/
+theorem rs_frontier_bound_prefix_witness :
+    (inBox 1 [3, 3] [-1, 0] = true ∧ zdPair rsPair 1 [-1, 0] = 7 ∧ maxFrontier (zdPair rsPair 1) 1 [3, 3] = 6 ∧
+      maxEnum (zdPair rsPair 1) 1 [3, 3] = 7) ∧
     (inBox 1 [3, 3, 3] [-1, 0, 0] = true ∧ zdPair rsPair 1 [-1, 0, 0] = 25 ∧
-      maxFrontier (zdPair rsPair 1) 1 [3, 3, 3] = 20) := by decide
+      maxFrontier (zdPair rsPair 1) 1 [3, 3, 3] = 20 ∧ maxEnum (zdPair rsPair 1) 1 [3, 3, 3] = 25) := by decide +kernel
 
 
 /-! ## 9. `HyperbolicPairing` (pairing.py:138-192; numbers.py `a_n`, `upper_bound_a_n`)
